@@ -995,7 +995,11 @@ ssize_t vp_write(int fd, const void *buf, size_t n)
     return vp_of_kind[o] == VP_K_PIPE_R ? vp_fail(EBADF) : (ssize_t) n;
   }
   if (vp_fault()) {
-    return vp_fail(vp_errno_any(true));
+    /* EPIPE and EAGAIN have a meaning of their own for write (no reader / would block):
+     * an injected failure is any OTHER errno */
+    int e = vp_errno_any(true);
+    VP_ASSUME(e != EPIPE && e != EAGAIN);
+    return vp_fail(e);
   }
   int p = vp_of_pipe[o];
   vp_exec_done();
